@@ -385,6 +385,38 @@ def run(tier, seed):
                                 "pre": [], "post": [], "key": interner_k(key), "out": interner_o(digest(out)), "n": 1})
             if A is None:
                 continue
+    # ... and with inputs on which the non-default keyword DECIDES the score (a deviation between the default and the
+    # requested tolerance), for every ordered pair of these tasks - functions of different modules share names
+    # (f_measure, detection, precision_recall_f1_overlap, evaluate), so anything keyed by a name is shared between them
+    sens = {
+        "onset": ((np.array([1.0, 2.0, 3.0]), np.array([1.09375, 2.0, 3.0])), {"window": 0.125}),
+        "beat": ((np.array([6.0, 7.0, 8.0, 9.0]), np.array([6.09375, 7.0, 8.0, 9.0])), {"f_measure_threshold": 0.125}),
+        "tempo": ((np.array([60.0, 120.0]), 0.5, np.array([66.0, 120.0])), {"tol": 0.125}),
+        "segment": ((np.array([[0.0, 2.0], [2.0, 4.0]]), ["a", "b"], np.array([[0.0, 2.75], [2.75, 4.0]]), ["a", "b"]), {"frame_size": 0.5, "beta": 2.0}),
+        "transcription": ((np.array([[0.0, 1.0], [2.0, 3.0]]), np.array([440.0, 220.0]), np.array([[0.09375, 1.0], [2.0, 3.0]]), np.array([440.0, 220.0])),
+                          {"onset_tolerance": 0.125}),
+        "transcription_velocity": ((np.array([[0.0, 1.0], [2.0, 3.0]]), np.array([440.0, 220.0]), np.array([10.0, 100.0]),
+                                    np.array([[0.0, 1.0], [2.0, 3.0]]), np.array([440.0, 220.0]), np.array([10.0, 60.0])), {"velocity_tolerance": 0.5}),
+    }
+    for A in [None] + sorted(sens):
+        m2 = import_mir_eval()
+        T2 = gen.catalogue(m2)
+        for B in sorted(sens):
+            if A == B:
+                continue
+            if A is not None:
+                try:
+                    T2[A].evaluate(*copy.deepcopy(sens[A][0]), **dict(sens[A][1]))
+                except Exception:
+                    pass
+            try:
+                out = ("ret", T2[B].evaluate(*copy.deepcopy(sens[B][0]), **dict(sens[B][1])))
+            except Exception as ex:  # noqa
+                out = ("exc", type(ex).__name__)
+            key = hashlib.md5(("fresh-sensitive:" + B).encode()).digest()
+            fresh += 1
+            records.append({"fn": B + ".evaluate", "names": [], "_desc": {"after": str(A), "kwargs": str(sens[B][1]), "->": repr(out)[:300]},
+                            "pre": [], "post": [], "key": interner_k(key), "out": interner_o(digest(out)), "n": 1})
     # the same idea for sonify: the same synthesis calls in every order, each order on freshly imported state
     import itertools
     gram0 = np.abs(np.random.RandomState(seed + 5).randn(3, 4))
